@@ -920,3 +920,12 @@ Definition uri_of (s : string) : uri :=
   match parse (txt s) with POk u => u | PSyntax _ => empty_uri end.
 Definition resolved_text (compat : bool) (b r : string) : text :=
   to_text (snd (add_base compat (uri_of r) (uri_of b))).
+
+(* every text over an alphabet, up to a length (for small-scope Examples) *)
+Fixpoint all_texts (alpha : text) (n : nat) : list text :=
+  match n with
+  | O => [[]]
+  | S k => [] :: flat_map (fun l => map (fun a => a :: l) alpha) (all_texts alpha k)
+  end.
+Definition parsed_wf (s : text) : bool :=
+  match parse s with POk u => wf u && one_kind u | PSyntax _ => true end.
